@@ -26,8 +26,9 @@ fn mname(s: &str) -> MethodName { MethodName::try_from(js(s)).expect("name") }
 pub struct U { pub classes: Vec<String> }
 
 const PKGS: [&str; 4] = ["", "a/", "a/b/", "net/minecraft/"];
-const SIMPLE: [&str; 10] = ["A", "B", "Foo", "Bar", "L", "I", "Ü", "C_1", "Outer", "E"];
-const FIELDS: [&str; 6] = ["a", "b", "f", "value", "RED", "L"];
+// (names outside ASCII: two-, three- and four-byte UTF-8 — the last one a surrogate pair in a class file)
+const SIMPLE: [&str; 12] = ["A", "B", "Foo", "Bar", "L", "I", "Ü", "C_1", "Outer", "E", "\u{6587}\u{4ef6}", "\u{1d49c}x"];
+const FIELDS: [&str; 7] = ["a", "b", "f", "value", "RED", "L", "\u{3b1}\u{1d4b3}"];
 const METHODS: [&str; 7] = ["a", "m", "run", "get", "clone", "<init>", "values"];
 const OUTSIDE: [&str; 4] = ["java/lang/Object", "java/lang/String", "java/util/function/Supplier", "java/lang/Enum"];
 
@@ -205,7 +206,23 @@ fn class(rng: &mut Rng, u: &U, name: &str, index: usize, n: usize) -> ClassFile 
 	if rng.chance(1, 4) { c.nest_host_class = Some(cls(&u.any_class(rng))); }
 	else if rng.chance(1, 4) { c.nest_members = Some((0..rng.range(1, 3)).map(|_| cls(&u.any_class(rng))).collect()); }
 	if rng.chance(1, 5) { c.permitted_subclasses = Some((0..rng.range(1, 3)).map(|_| cls(&u.any_class(rng))).collect()); }
-	if rng.chance(1, 6) { c.record_components = (0..rng.range(1, 3)).map(|i| RecordComponent::new(RecordName::try_from(js(&format!("c{i}"))).expect("name"), fdesc(&u.field_desc(rng)))).collect(); }
+	if rng.chance(1, 5) {
+		// as in a real record, a component usually is a declared field too (same name and descriptor); everything a
+		// component can carry: signature, both kinds of annotations, unknown attributes
+		let declared: Vec<(String, String)> = c.fields.iter().map(|f| (f.name.to_string(), f.descriptor.to_string())).collect();
+		let mut seen: Vec<String> = vec![];
+		for i in 0..rng.range(1, 3) {
+			let (n, d) = if !declared.is_empty() && rng.chance(2, 3) { declared[rng.below(declared.len())].clone() } else { (format!("c{i}"), u.field_desc(rng)) };
+			if seen.contains(&n) { continue; }
+			seen.push(n.clone());
+			let mut rc = RecordComponent::new(RecordName::try_from(js(&n)).expect("name"), fdesc(&d));
+			if rng.chance(1, 4) { rc.signature = Some(FieldSignature::try_from(js(&format!("L{}<TT;>;", u.any_class(rng)))).expect("signature")); }
+			rc.runtime_visible_annotations = u.annotations(rng);
+			rc.runtime_invisible_annotations = u.annotations(rng);
+			rc.attributes = u.unknown(rng);
+			c.record_components.push(rc);
+		}
+	}
 	c.has_deprecated_attribute = rng.chance(1, 8);
 	c.attributes = u.unknown(rng);
 	c
